@@ -223,6 +223,9 @@ func RunReaders(args []string) *rep.Report {
 			return nil
 		}
 		bcfg := *cfg
+		for _, st := range b.Steps {
+			bcfg.Auto = bcfg.Auto || st.Au != 0
+		}
 		if !hasTick {
 			bcfg.TTLUnits = 1 << 20 // the model clock never advances in this behaviour: nothing may expire
 		}
